@@ -69,11 +69,44 @@ def freeze(x):
     return tuple(freeze(y) for y in x) if isinstance(x, (list, tuple)) else x
 
 
+_FRESH = set()
+_BUILD_LOCK = __import__("threading").Lock()
+
+
+def model_entry(name):
+    with open(os.path.join(VERIF, "runner", "models.txt")) as fh:
+        for ln in fh:
+            parts = ln.strip().split(":")
+            if parts and parts[0] == name:
+                return parts
+    raise RuntimeError("no entry for %s in runner/models.txt" % name)
+
+
+def ensure_runner(name):
+    """Rebuild runner/bin/<name> when any model source is newer than it."""
+    exe = os.path.join(RUNNER_BIN, name)
+    with _BUILD_LOCK:
+        if name in _FRESH:
+            return exe
+        _, vfile, target = model_entry(name)
+        newest = 0
+        for root, _, files in os.walk(COQ):
+            for f in files:
+                if f.endswith(".v"):
+                    newest = max(newest, os.path.getmtime(os.path.join(root, f)))
+        newest = max(newest, os.path.getmtime(os.path.join(VERIF, "runner", "main.ml")))
+        if not os.path.exists(exe) or os.path.getmtime(exe) < newest:
+            ok, log = coq_build([target])
+            if not ok:
+                raise RuntimeError("coq build failed:\n" + "\n".join(log.splitlines()[-20:]))
+            subprocess.run([os.path.join(VERIF, "runner", "build.sh"), name, vfile], check=True)
+        _FRESH.add(name)
+    return exe
+
+
 def run_model(name, programs, timeout=1800):
     """Feed programs (nested int lists) to runner/bin/<name>; one answer each."""
-    exe = os.path.join(RUNNER_BIN, name)
-    if not os.path.exists(exe):
-        raise RuntimeError("model runner %s missing: run ./setup.sh" % exe)
+    exe = ensure_runner(name)
     data = "\n".join(to_sexp(p) for p in programs) + "\n"
     out = subprocess.run(
         ["/bin/sh", "-c", "ulimit -s unlimited 2>/dev/null; exec " + exe],
@@ -150,7 +183,8 @@ def coq_sources():
 
 def extract_sources():
     with open(os.path.join(VERIF, "runner", "models.txt")) as fh:
-        return [os.path.join("Extract", ln.strip().split(":")[1]) for ln in fh if ln.strip()]
+        return [os.path.join("Extract", ln.strip().split(":")[1]) for ln in fh if ln.strip()
+                and os.path.exists(os.path.join(COQ, "Extract", ln.strip().split(":")[1]))]
 
 
 def audit_sources(files=None):
